@@ -154,18 +154,35 @@ func c04(r *core.Run) {
 
 func c04jwt(r *core.Run, p *core.Prog) {
 	isParseTok := core.CallMethod("token.Parser", "ParseToken")
-	var gates []*ssa.Function
-	for _, f := range p.PkgFuncs(c04HandlerPkg) {
-		if len(core.Instrs(f, isParseTok)) > 0 {
-			gates = append(gates, f)
-		}
-	}
 	isHandlerT := b2TypeIs("net/http.Handler")
 	isNextVal := b2FreeVarOfType(isHandlerT)
 	isNext := b2Invoke(isNextVal, "ServeHTTP")
+	// role: the functions of the package that call ParseToken (the gate closure itself, or a verifying helper of it)
+	var parsers []*ssa.Function
+	isParser := map[*ssa.Function]bool{}
+	for _, f := range b2PkgFuncs(p, c04HandlerPkg) {
+		if len(core.Instrs(f, isParseTok)) > 0 {
+			parsers = append(parsers, f)
+			isParser[f] = true
+		}
+	}
+	isVerifierCall := func(in ssa.Instruction) bool {
+		c, ok := in.(*ssa.Call)
+		return ok && c.Call.StaticCallee() != nil && isParser[c.Call.StaticCallee()]
+	}
+	// role: the gates are the functions that run the protected handler and verify the token, directly or through a verifying helper
+	var gates []*ssa.Function
+	for _, f := range b2PkgFuncs(p, c04HandlerPkg) {
+		if len(core.Instrs(f, isNext)) == 0 {
+			continue
+		}
+		if isParser[f] || len(core.Instrs(f, isVerifierCall)) > 0 {
+			gates = append(gates, f)
+		}
+	}
 	// role: functions of the package that write 401
 	unauthFns := map[*ssa.Function]bool{}
-	for _, f := range p.PkgFuncs(c04HandlerPkg) {
+	for _, f := range b2PkgFuncs(p, c04HandlerPkg) {
 		if len(core.Instrs(f, c04IsWriteHeader(401))) > 0 {
 			unauthFns[f] = true
 		}
@@ -177,40 +194,74 @@ func c04jwt(r *core.Run, p *core.Prog) {
 		c := core.AsCall(in)
 		return c != nil && c.Common().StaticCallee() != nil && unauthFns[c.Common().StaticCallee()]
 	}
+	isTok := func(v ssa.Value) bool { return core.IsResult(v, 0, isParseTok) }
+	type namedAtom struct {
+		a    core.Atom
+		what string
+	}
+	tokenAtoms := []namedAtom{
+		{core.ErrNil(1, isParseTok), "ParseToken returned an error"},
+		{core.BoolVal(func(v ssa.Value) bool {
+			if !b2LoadOfField("Token.Valid", "")(v) {
+				return false
+			}
+			u, ok := core.Forward(v).(*ssa.UnOp)
+			if !ok {
+				return false
+			}
+			fa, ok := u.X.(*ssa.FieldAddr)
+			return ok && isTok(fa.X)
+		}), "the token is not Valid"},
+		{core.BoolVal(func(v ssa.Value) bool {
+			e, ok := v.(*ssa.Extract)
+			if !ok || e.Index != 1 {
+				return false
+			}
+			ta, ok := e.Tuple.(*ssa.TypeAssert)
+			return ok && ta.CommaOk && b2LoadOfField("Token.Claims", "")(ta.X)
+		}), "the claims are not MapClaims"},
+	}
 
-	r.Check("D1/K2/jwt-gate", "in the closure that calls Parser.ParseToken, next.ServeHTTP is reachable only with err == nil ∧ tok.Valid ∧ claims.(MapClaims) ok; every failing arm passes a 401 writer before returning", func(o *core.O) {
-		if !o.Need(len(gates) > 0, "a function of api/handler calling (*token.Parser).ParseToken") {
+	r.Check("D1/K2/jwt-gate", "next.ServeHTTP is reachable only with ParseToken err == nil ∧ tok.Valid ∧ claims.(MapClaims) ok — tested in the gate closure itself, or in a verifying helper that returns a nil error only then and whose error the gate tests; every failing arm passes a 401 writer before returning", func(o *core.O) {
+		if !o.Need(len(gates) > 0, "a function of api/handler that runs next.ServeHTTP and verifies the token with (*token.Parser).ParseToken") {
 			return
 		}
 		for _, g := range gates {
 			r.Fn(core.FuncName(g))
 			nexts := core.Instrs(g, isNext)
 			o.Site(len(nexts), core.FuncName(g))
-			if len(nexts) == 0 {
-				o.Fail(p.Pos(g.Pos()), "%s never runs the protected handler", core.FuncName(g))
-				continue
-			}
-			isTok := func(v ssa.Value) bool { return core.IsResult(v, 0, isParseTok) }
-			atoms := []struct {
-				a    core.Atom
-				what string
-			}{
-				{core.ErrNil(1, isParseTok), "ParseToken returned an error"},
-				{core.BoolVal(func(v ssa.Value) bool {
-					if !b2LoadOfField("Token.Valid", "")(v) {
-						return false
+			atoms := tokenAtoms
+			if !isParser[g] {
+				// verification delegated: the helper must succeed only under the three conditions, the gate must test its error
+				atoms = nil
+				for _, c := range core.Calls(g, isVerifierCall) {
+					h := c.Common().StaticCallee()
+					r.Fn(core.FuncName(h))
+					res := h.Signature.Results()
+					if res.Len() == 0 || res.At(res.Len()-1).Type().String() != "error" {
+						o.Unres("%s verifies the token but does not report failure as an error result", core.FuncName(h))
+						continue
 					}
-					fa, ok := core.Forward(v).(*ssa.UnOp).X.(*ssa.FieldAddr)
-					return ok && isTok(fa.X)
-				}), "the token is not Valid"},
-				{core.BoolVal(func(v ssa.Value) bool {
-					e, ok := v.(*ssa.Extract)
-					if !ok || e.Index != 1 {
-						return false
+					ei := res.Len() - 1
+					okRet := func(in ssa.Instruction) bool {
+						ret, ok := in.(*ssa.Return)
+						return ok && len(ret.Results) == ei+1 && b2MayBeNil(core.Result(ret, ei))
 					}
-					ta, ok := e.Tuple.(*ssa.TypeAssert)
-					return ok && ta.CommaOk && b2LoadOfField("Token.Claims", "")(ta.X)
-				}), "the claims are not MapClaims"},
+					if len(core.Instrs(h, okRet)) == 0 {
+						o.Fail(p.Pos(h.Pos()), "%s never succeeds", core.FuncName(h))
+					}
+					for _, at := range tokenAtoms {
+						if core.EdgeCount(h, at.a) == 0 {
+							o.Fail(p.Pos(h.Pos()), "%s never tests whether %s", core.FuncName(h), at.what)
+							continue
+						}
+						if w := core.Requires(h, okRet, at.a); w != nil {
+							o.Fail(p.InstrPos(w), "%s reports success although %s", core.FuncName(h), at.what)
+						}
+					}
+					cc := c
+					atoms = append(atoms, namedAtom{core.ErrNil(ei, core.Is(cc)), core.FuncName(h) + " reported a failed verification"})
+				}
 			}
 			for _, at := range atoms {
 				hold, fail := core.EdgesOf(g, at.a)
@@ -250,65 +301,107 @@ func c04jwt(r *core.Run, p *core.Prog) {
 		}
 	})
 
-	r.Check("D1/K8/claims-forwarded", "every claim key outside the seven registered names reaches context.WithValue(ctx, k, v); ctx is loop-carried from r.Context() and is the context of the request handed to next", func(o *core.O) {
+	r.Check("D1/K8/claims-forwarded", "every claim key outside the seven registered names reaches context.WithValue(ctx, k, v) (in the gate or in the helper that builds its context); ctx is loop-carried from r.Context() and is the context of the request handed to next", func(o *core.O) {
 		if !o.Need(len(gates) > 0, "JWT gate closure") {
 			return
 		}
 		isWV := core.CallTo("context.WithValue")
+		isReqCtx := b2IsCallVal(core.CallTo("(*net/http.Request).Context"))
 		for _, g := range gates {
-			wvs := core.Calls(g, isWV)
-			o.Site(len(wvs), core.FuncName(g))
-			if len(wvs) == 0 {
+			// the forwarder: the gate itself or an in-package helper it calls that contains the WithValue loop
+			fwd := map[*ssa.Function]bool{}
+			if len(core.Calls(g, isWV)) > 0 {
+				fwd[g] = true
+			}
+			for _, c := range core.Calls(g, func(in ssa.Instruction) bool { c, ok := in.(*ssa.Call); return ok && b2CalleeIn(c, c04HandlerPkg) }) {
+				if h := c.Common().StaticCallee(); len(core.Calls(h, isWV)) > 0 {
+					fwd[h] = true
+				}
+			}
+			if len(fwd) == 0 {
 				o.Fail(p.Pos(g.Pos()), "claims are never put into the request context")
 				continue
 			}
-			var keyEx *ssa.Extract
-			for _, in := range core.Instrs(g, func(in ssa.Instruction) bool {
-				e, ok := in.(*ssa.Extract)
-				if !ok || e.Index != 1 {
-					return false
+			isFwdCall := func(in ssa.Instruction) bool {
+				c, ok := in.(*ssa.Call)
+				return ok && c.Call.StaticCallee() != nil && c.Call.StaticCallee() != g && fwd[c.Call.StaticCallee()]
+			}
+			for f := range fwd {
+				r.Fn(core.FuncName(f))
+				wvs := core.Calls(f, isWV)
+				o.Site(len(wvs), core.FuncName(f))
+				var keyEx *ssa.Extract
+				for _, in := range core.Instrs(f, func(in ssa.Instruction) bool {
+					e, ok := in.(*ssa.Extract)
+					if !ok || e.Index != 1 {
+						return false
+					}
+					_, ok = e.Tuple.(*ssa.Next)
+					return ok
+				}) {
+					keyEx = in.(*ssa.Extract)
 				}
-				_, ok = e.Tuple.(*ssa.Next)
-				return ok
-			}) {
-				keyEx = in.(*ssa.Extract)
-			}
-			if keyEx == nil {
-				o.Unres("%s: no range over the claims found", core.FuncName(g))
-				continue
-			}
-			isK := b2IsValue(keyEx)
-			consts := b2StrConstsCompared(g, isK)
-			for _, s := range append([]string{"\x00custom-claim"}, consts...) {
-				if c04Registered[s] {
+				if keyEx == nil {
+					o.Unres("%s: no range over the claims found", core.FuncName(f))
 					continue
 				}
-				cut := core.CutSet(b2AssumeEq(g, isK, consts, s))
-				if w, ok := core.Reach(core.Q{From: []core.At{core.After(keyEx)}, Blocked: isWV, Cut: cut, Target: func(in ssa.Instruction) bool {
-					_, isNextIter := in.(*ssa.Next)
-					return isNextIter || core.IsReturn(in) || isNext(in)
-				}}); ok {
-					name := s
-					if s == "\x00custom-claim" {
-						name = "<any custom claim>"
+				isK := b2IsValue(keyEx)
+				consts := b2StrConstsDeep(f, isK)
+				for _, s := range append([]string{"\x00custom-claim"}, consts...) {
+					if c04Registered[s] {
+						continue
 					}
-					o.Fail(p.InstrPos(w), "claim %q is not forwarded into the request context", name)
+					cut := core.CutSet(b2AssumeEqDeep(f, isK, s))
+					if w, ok := core.Reach(core.Q{From: []core.At{core.After(keyEx)}, Blocked: isWV, Cut: cut, Target: func(in ssa.Instruction) bool {
+						_, isNextIter := in.(*ssa.Next)
+						return isNextIter || core.IsReturn(in) || isNext(in)
+					}}); ok {
+						name := s
+						if s == "\x00custom-claim" {
+							name = "<any custom claim>"
+						}
+						o.Fail(p.InstrPos(w), "claim %q is not forwarded into the request context", name)
+					}
+				}
+				for _, c := range wvs {
+					a := core.Args(c)
+					if !isK(a[1]) {
+						o.Fail(p.InstrPos(c), "the context key is %s, not the claim name", core.Describe(a[1]))
+					}
+					if e, ok := core.Strip(a[2]).(*ssa.Extract); !ok || e.Index != 2 || e.Tuple != keyEx.Tuple {
+						o.Fail(p.InstrPos(c), "the context value is %s, not the claim value", core.Describe(a[2]))
+					}
+					if !core.DependsOn(a[0], b2IsValue(c.(*ssa.Call))) {
+						o.Fail(p.InstrPos(c), "the context is not accumulated across claims (each claim starts from a fresh context, only the last one survives)")
+					}
+					fromReq := core.DependsOn(a[0], isReqCtx)
+					if !fromReq && f != g {
+						// helper: the base context is a parameter that the gate binds to r.Context()
+						for i, pa := range f.Params {
+							if !core.DependsOn(a[0], b2IsValue(pa)) {
+								continue
+							}
+							for _, gc := range core.Calls(g, isFwdCall) {
+								if gc.Common().StaticCallee() == f && i < len(core.Args(gc)) && core.DependsOn(core.Args(gc)[i], isReqCtx) {
+									fromReq = true
+								}
+							}
+						}
+					}
+					if !fromReq {
+						o.Fail(p.InstrPos(c), "the claims context is not derived from the request's context")
+					}
+				}
+				if f != g {
+					for _, ret := range core.Returns(f) {
+						if !core.DependsOn(core.Result(ret, 0), b2IsCallVal(isWV)) {
+							o.Fail(p.InstrPos(ret), "%s does not return the context that carries the claims", core.FuncName(f))
+						}
+					}
 				}
 			}
-			for _, c := range wvs {
-				a := core.Args(c)
-				if !isK(a[1]) {
-					o.Fail(p.InstrPos(c), "the context key is %s, not the claim name", core.Describe(a[1]))
-				}
-				if e, ok := core.Strip(a[2]).(*ssa.Extract); !ok || e.Index != 2 || e.Tuple != keyEx.Tuple {
-					o.Fail(p.InstrPos(c), "the context value is %s, not the claim value", core.Describe(a[2]))
-				}
-				if !core.DependsOn(a[0], b2IsValue(c.(*ssa.Call))) {
-					o.Fail(p.InstrPos(c), "the context is not accumulated across claims (each claim starts from a fresh context, only the last one survives)")
-				}
-				if !core.DependsOn(a[0], b2IsCallVal(core.CallTo("(*net/http.Request).Context"))) {
-					o.Fail(p.InstrPos(c), "the claims context is not derived from the request's context")
-				}
+			carries := func(v ssa.Value) bool {
+				return core.DependsOn(v, b2IsCallVal(isWV)) || core.DependsOn(v, b2IsCallVal(isFwdCall))
 			}
 			for _, in := range core.Instrs(g, isNext) {
 				req := core.Args(in.(ssa.CallInstruction))[2]
@@ -317,7 +410,7 @@ func c04jwt(r *core.Run, p *core.Prog) {
 					o.Fail(p.InstrPos(in), "next is given %s, not r.WithContext(ctx)", core.Describe(req))
 					continue
 				}
-				if !core.DependsOn(wc.Call.Args[1], b2IsCallVal(isWV)) {
+				if !carries(wc.Call.Args[1]) {
 					o.Fail(p.InstrPos(in), "the request handed to next does not carry the claims context")
 				}
 				if len(g.Params) == 2 && !b2Param(g, 1)(wc.Call.Args[0]) {
@@ -327,22 +420,34 @@ func c04jwt(r *core.Run, p *core.Prog) {
 		}
 	})
 
-	r.Check("D2/K8/authorize-secrets", "the gate parses the incoming request with Authorize's secret and the configured PrevSecret, in that order", func(o *core.O) {
+	r.Check("D2/K8/authorize-secrets", "the incoming request is parsed with Authorize's secret and the configured PrevSecret, in that order (looking through a verifying helper's parameters)", func(o *core.O) {
 		az := p.Func(c04HandlerPkg, "", "Authorize")
-		if !o.Need(az != nil && len(gates) > 0, "handler.Authorize and its gate closure") {
+		if !o.Need(az != nil && len(gates) > 0 && len(parsers) > 0, "handler.Authorize and its gate closure") {
 			return
 		}
-		for _, g := range gates {
-			for _, c := range core.Calls(g, isParseTok) {
-				o.Site(1, core.FuncName(g))
+		isGateReq := func(v ssa.Value) bool {
+			pa, ok := v.(*ssa.Parameter)
+			if !ok || !strings.HasSuffix(pa.Type().String(), "net/http.Request") {
+				return false
+			}
+			for _, g := range gates {
+				if pa.Parent() == g {
+					return true
+				}
+			}
+			return false
+		}
+		for _, f := range parsers {
+			for _, c := range core.Calls(f, isParseTok) {
+				o.Site(1, core.FuncName(f))
 				a := core.Args(c)
-				if len(g.Params) != 2 || !b2Param(g, 1)(a[1]) {
+				if !b2AllOrigins(p, a[1], isGateReq) {
 					o.Fail(p.InstrPos(c), "ParseToken is not given the incoming request")
 				}
-				if c04Origin(a[2]) != ssa.Value(az.Params[0]) {
+				if !b2AllOrigins(p, a[2], func(v ssa.Value) bool { return v == ssa.Value(az.Params[0]) || c04Origin(v) == ssa.Value(az.Params[0]) }) {
 					o.Fail(p.InstrPos(c), "the current secret passed to ParseToken is %s, not Authorize's secret parameter", core.Describe(a[2]))
 				}
-				if !b2FieldLoadS("AuthorizeOptions.PrevSecret")(a[3]) {
+				if !b2AllOrigins(p, a[3], b2FieldLoadS("AuthorizeOptions.PrevSecret")) {
 					o.Fail(p.InstrPos(c), "the previous secret passed to ParseToken is %s, not opts.PrevSecret", core.Describe(a[3]))
 				}
 			}
@@ -369,7 +474,7 @@ func c04jwt(r *core.Run, p *core.Prog) {
 	pt := p.Func(c04TokenPkg, "Parser", "ParseToken")
 	isPFR := core.CallTo("github.com/golang-jwt/jwt/v4/request.ParseFromRequest")
 	var doFns []*ssa.Function
-	for _, f := range p.PkgFuncs(c04TokenPkg) {
+	for _, f := range b2PkgFuncs(p, c04TokenPkg) {
 		if len(core.Instrs(f, isPFR)) > 0 && f.Parent() == nil {
 			doFns = append(doFns, f)
 		}
@@ -632,7 +737,7 @@ func c04sig(r *core.Run, p *core.Prog) {
 	isVerify := core.CallTo(c04SecPkg + ".VerifySignature")
 	csh := p.Func(c04HandlerPkg, "", "ContentSecurityHandler")
 	var gates []*ssa.Function
-	for _, f := range p.PkgFuncs(c04HandlerPkg) {
+	for _, f := range b2PkgFuncs(p, c04HandlerPkg) {
 		if len(core.Instrs(f, isParseCS)) > 0 {
 			gates = append(gates, f)
 		}
@@ -674,7 +779,7 @@ func c04sig(r *core.Run, p *core.Prog) {
 				return
 			}
 			isM := b2LoadOfField("Request.Method", core.Describe(g.Params[1]))
-			consts := b2StrConstsCompared(g, isM)
+			_ = b2StrConstsCompared
 			useNext := func(in ssa.Instruction) bool {
 				c := core.AsCall(in)
 				return c != nil && !isRunner(c) && c04UsesValue(c, isNextVal)
@@ -687,7 +792,7 @@ func c04sig(r *core.Run, p *core.Prog) {
 			parseOK := core.ErrNil(1, isParseCS)
 			sigOK := core.Cmp(token.EQL, func(v ssa.Value) bool { return core.IsResult(v, 0, isVerify) }, core.IsConstInt(passCode))
 			for _, m := range []string{"DELETE", "GET", "POST", "PUT"} {
-				assume := b2AssumeEq(g, isM, consts, m)
+				assume := b2AssumeEqDeep(g, isM, m)
 				for _, at := range []struct {
 					a    core.Atom
 					what string
@@ -798,7 +903,7 @@ func c04sig(r *core.Run, p *core.Prog) {
 			o.Fail(p.InstrPos(w), "no callback supplied and the default one is not installed: a failed verification is neither rejected nor passed on")
 		}
 		// runner passes its parameters on
-		for _, f := range p.PkgFuncs(c04HandlerPkg) {
+		for _, f := range b2PkgFuncs(p, c04HandlerPkg) {
 			for _, c := range core.Calls(f, func(in ssa.Instruction) bool {
 				c := core.AsCall(in)
 				return c != nil && !c.Common().IsInvoke() && isCbType(c.Common().Value.Type())
@@ -1093,85 +1198,78 @@ func c04sig(r *core.Run, p *core.Prog) {
 		o.Site(n, core.FuncName(vs))
 	})
 
-	r.Check("D4/K7/tolerance-two-sided", "the timestamp window is tested on both sides with the same tolerance: seconds + tol ≥ now and now + tol ≥ seconds guard the MAC comparison (normal form, any spelling)", func(o *core.O) {
+	r.Check("D4/K7/tolerance-two-sided", "the timestamp window is two-sided and symmetric: evaluated on concrete (seconds, now, tolerance) triples, the MAC comparison / CodeSignaturePass is unreachable when the timestamp is more than the tolerance older or newer than now, and reachable when it is within the tolerance on either side (any spelling, helper or inline)", func(o *core.O) {
 		if !o.Need(vs != nil && len(vs.Params) == 3, "security.VerifySignature") {
 			return
 		}
-		isS := func(v ssa.Value) bool { return core.IsResult(v, 0, core.CallTo("strconv.ParseInt", "strconv.Atoi")) }
+		isS := func(v ssa.Value) bool {
+			e, ok := core.Forward(v).(*ssa.Extract)
+			return ok && e.Index == 0 && core.IsResult(e, 0, core.CallTo("strconv.ParseInt", "strconv.Atoi"))
+		}
 		isN := func(v ssa.Value) bool {
 			c, ok := v.(*ssa.Call)
-			return ok && core.CalleeName(c) == "(time.Time).Unix"
+			return ok && (core.CalleeName(c) == "(time.Time).Unix")
 		}
 		isTol := b2Param(vs, 2)
-		tolForms := map[string]bool{}
-		alg := &core.Alg{
-			Opaque: func(v ssa.Value) bool {
-				if _, isC := v.(*ssa.Const); isC {
-					return false
-				}
-				return isS(core.Forward(v)) || isN(v) || (core.DependsOn(v, isTol) && !core.DependsOn(v, isS) && !core.DependsOn(v, isN))
-			},
-			Name: func(v ssa.Value) string {
-				switch {
-				case isS(core.Forward(v)):
-					return "S"
-				case isN(v):
-					return "N"
-				case core.DependsOn(v, isTol) && !core.DependsOn(v, isS) && !core.DependsOn(v, isN):
-					tolForms[core.Describe(v)] = true
-					return "T"
-				}
-				return ""
-			},
+		if len(core.Instrs(vs, func(in ssa.Instruction) bool { v, ok := in.(ssa.Value); return ok && isN(v) })) == 0 {
+			o.Unres("VerifySignature: the current time is not read as time.Now().Unix()")
+			return
 		}
-		late, early := core.ParsePoly("S + T - N"), core.ParsePoly("N + T - S")
-		window := func(want core.Poly) core.Atom { // atom "want >= 0" (boundary spelling free)
-			return func(v ssa.Value) (bool, bool) {
-				b, ok := v.(*ssa.BinOp)
-				if !ok {
-					return false, false
-				}
-				var d core.Poly
-				switch b.Op {
-				case token.LSS, token.LEQ: // X < Y  ≡  X−Y < 0
-					d = alg.Norm(b.X).Sub(alg.Norm(b.Y))
-				case token.GTR, token.GEQ: // X > Y  ≡  Y−X < 0
-					d = alg.Norm(b.Y).Sub(alg.Norm(b.X))
-				default:
-					return false, false
-				}
-				if d.Equal(want) { // want < 0 when the condition is true: outside the window
-					return true, false
-				}
-				if d.Equal(want.Neg()) { // −want < 0: inside
-					return true, true
-				}
-				return false, false
+		target := core.Or(retPass, isMac)
+		if len(core.Instrs(vs, target)) == 0 {
+			o.Fail(p.Pos(vs.Pos()), "VerifySignature neither computes the MAC nor passes")
+			return
+		}
+		type vec struct {
+			s, n, tol float64
+			inside    bool
+			what      string
+		}
+		var vecs []vec
+		for _, tol := range []float64{0, 5, 900} {
+			base := 1.7e9
+			vecs = append(vecs,
+				vec{base, base + tol + 1, tol, false, "older than now − tolerance"},
+				vec{base + tol + 1, base, tol, false, "further in the future than now + tolerance"},
+				vec{base, base, tol, true, "equal to now"})
+			if tol >= 2 {
+				vecs = append(vecs,
+					vec{base, base + tol - 1, tol, true, "older than now but within the tolerance"},
+					vec{base + tol - 1, base, tol, true, "in the future but within the tolerance"})
 			}
 		}
 		n := 0
-		for _, side := range []struct {
-			a    core.Atom
-			what string
-		}{{window(late), "older than now − tolerance (seconds + tol < now)"}, {window(early), "further in the future than now + tolerance (now + tol < seconds)"}} {
-			hold, _ := core.EdgesOf(vs, side.a)
-			n += len(hold)
-			if len(hold) == 0 {
-				o.Fail(p.Pos(vs.Pos()), "no test rejects a timestamp %s: the window is one-sided", side.what)
-				continue
+		for _, vc := range vecs {
+			vc := vc
+			ev := &c04Eval{
+				leaf: func(v ssa.Value) (float64, bool) {
+					switch {
+					case isS(core.Forward(v)):
+						return vc.s, true
+					case isN(v):
+						return vc.n, true
+					case isTol(v):
+						return vc.tol * 1e9, true
+					}
+					return 0, false
+				},
+				relevant: func(v ssa.Value) bool {
+					return core.DependsOn(v, func(x ssa.Value) bool { return isS(x) || isN(x) })
+				},
 			}
-			if w := core.Requires(vs, core.Or(retPass, isMac), side.a); w != nil {
-				o.Fail(p.InstrPos(w), "the signature is evaluated/accepted for a timestamp %s", side.what)
+			w := ev.reach(vs, target)
+			n++
+			switch {
+			case ev.Undecided != nil:
+				o.Unres("VerifySignature: a condition on the timestamp at %s cannot be evaluated (seconds=%.0f now=%.0f tolerance=%.0fs)", p.InstrPos(ev.Undecided), vc.s, vc.n, vc.tol)
+				return
+			case !vc.inside && w != nil:
+				o.Fail(p.InstrPos(w), "the signature is evaluated/accepted for a timestamp %s (seconds=%.0f now=%.0f tolerance=%.0fs): the window is not two-sided", vc.what, vc.s, vc.n, vc.tol)
+			case vc.inside && w == nil:
+				o.Fail(p.Pos(vs.Pos()), "a timestamp %s is rejected (seconds=%.0f now=%.0f tolerance=%.0fs): the window is not symmetric with the configured tolerance", vc.what, vc.s, vc.n, vc.tol)
 			}
 		}
 		o.Site(n, core.FuncName(vs))
-		if len(tolForms) > 1 {
-			var fs []string
-			for f := range tolForms {
-				fs = append(fs, f)
-			}
-			o.Fail(p.Pos(vs.Pos()), "the two sides of the window use different tolerances: %s", b2Join(fs))
-		}
 	})
 
 	r.Check("D4/K8/hmac", "codec.HmacBase64 encodes Hmac(key, body) of its own arguments; codec.Hmac keys HMAC-SHA256 with key and writes body before Sum", func(o *core.O) {
@@ -1245,7 +1343,7 @@ func c04sig(r *core.Run, p *core.Prog) {
 
 	r.Check("D4/K8/body-hash", "the body-hash helper feeds the request body into the SHA-256 whose Sum it returns, before Sum", func(o *core.O) {
 		n := 0
-		for _, f := range p.PkgFuncs(c04SecPkg) {
+		for _, f := range b2PkgFuncs(p, c04SecPkg) {
 			news := core.Calls(f, core.CallTo("crypto/sha256.New"))
 			if len(news) == 0 {
 				continue
@@ -1635,7 +1733,7 @@ func c04rpc(r *core.Run, p *core.Prog) {
 
 	r.Check("D5/K2/rpc-interceptors", "both auth interceptors call the handler only after Authenticate(call context) returned nil on the configured authenticator, and otherwise return that error", func(o *core.O) {
 		var ics []*ssa.Function
-		for _, f := range p.PkgFuncs(c04IcPkg) {
+		for _, f := range b2PkgFuncs(p, c04IcPkg) {
 			if len(core.Instrs(f, isAuthCall)) > 0 {
 				ics = append(ics, f)
 			}
@@ -1702,7 +1800,7 @@ func c04rpc(r *core.Run, p *core.Prog) {
 
 	r.Check("D5/K1/rpc-installed", "rpc.setupInterceptors: when c.Auth is set, both the stream and the unary auth interceptor are added with an authenticator built with c.StrictControl, on every non-error path", func(o *core.O) {
 		var f *ssa.Function
-		for _, g := range p.PkgFuncs("rpc") {
+		for _, g := range b2PkgFuncs(p, "rpc") {
 			if len(core.Instrs(g, core.CallTo(c04AuthPkg+".NewAuthenticator"))) > 0 {
 				f = g
 			}
